@@ -770,6 +770,10 @@ func existsFalseEdges(fn *ssa.Function, r respRoot, existsFn, recorder *ssa.Func
 			continue
 		}
 		elemGuards[fn] = append(elemGuards[fn], elemGuard{ia.X, ia.Index, fl})
+		if ev, found := passesEveryCompletedIteration(call); found && !ev {
+			detail = "Exists() is not evaluated in every iteration of the loop over the batch"
+			continue
+		}
 		hdrExit := loopExitEdges(fn, ia.Index, r.val)
 		if len(hdrExit) == 0 {
 			detail = "Exists() is tested on one element only, not in a loop over the whole slice"
